@@ -4,6 +4,9 @@
 //   mutate apply <dir> <n>       applies mutation n in place
 // operators: relational boundary (< <-> <=, > <-> >=), && <-> ||, integer literal 1 -> 0 / +1 removal in x+1, x-1,
 // deletion of an expression statement that is a call, negation of an if condition without else.
+// With MUTATE_SET=2 a second operator set is used instead: deletion of a guard (an if without else whose body ends in
+// return/continue/break/panic), deletion of a plain assignment, deletion of a defer, break <-> continue,
+// + <-> - and * <-> /, == <-> != outside if conditions, swap of two adjacent identifier arguments.
 package main
 
 import (
@@ -75,7 +78,101 @@ func collect(root string, target int) {
 				}
 			}
 		}
+		set2 := os.Getenv("MUTATE_SET") == "2"
+		ifConds := map[ast.Expr]bool{}
+		if set2 {
+			visitList = func(list *[]ast.Stmt) {
+				for i := range *list {
+					i := i
+					st := (*list)[i]
+					switch x := st.(type) {
+					case *ast.IfStmt:
+						if x.Else == nil && len(x.Body.List) > 0 {
+							last := x.Body.List[len(x.Body.List)-1]
+							exits := false
+							switch l := last.(type) {
+							case *ast.ReturnStmt, *ast.BranchStmt:
+								exits = true
+							case *ast.ExprStmt:
+								if c, ok := l.X.(*ast.CallExpr); ok {
+									if id, ok := c.Fun.(*ast.Ident); ok && id.Name == "panic" {
+										exits = true
+									}
+								}
+							}
+							if exits {
+								add(x.Pos(), "delete-guard", "if "+render(fset, x.Cond)+" {...} -> (deleted)", func() { (*list)[i] = &ast.EmptyStmt{Semicolon: x.Pos()} })
+							}
+						}
+					case *ast.AssignStmt:
+						if x.Tok != token.DEFINE {
+							add(x.Pos(), "delete-assign", render(fset, x)+" -> (deleted)", func() { (*list)[i] = &ast.EmptyStmt{Semicolon: x.Pos()} })
+						}
+					case *ast.DeferStmt:
+						add(x.Pos(), "delete-defer", render(fset, x)+" -> (deleted)", func() { (*list)[i] = &ast.EmptyStmt{Semicolon: x.Pos()} })
+					case *ast.BranchStmt:
+						if x.Label == nil && (x.Tok == token.BREAK || x.Tok == token.CONTINUE) {
+							to := token.CONTINUE
+							if x.Tok == token.CONTINUE {
+								to = token.BREAK
+							}
+							add(x.Pos(), "branch-swap", x.Tok.String()+" -> "+to.String(), func() { x.Tok = to })
+						}
+					}
+				}
+			}
+			ast.Inspect(f, func(nd ast.Node) bool {
+				switch x := nd.(type) {
+				case *ast.BlockStmt:
+					visitList(&x.List)
+				case *ast.CaseClause:
+					visitList(&x.Body)
+				case *ast.IfStmt:
+					if x.Else == nil {
+						ifConds[x.Cond] = true
+					}
+				case *ast.BinaryExpr:
+					before := render(fset, x)
+					swap := map[token.Token]token.Token{token.ADD: token.SUB, token.SUB: token.ADD, token.MUL: token.QUO, token.QUO: token.MUL, token.EQL: token.NEQ, token.NEQ: token.EQL}
+					if to, ok := swap[x.Op]; ok {
+						if (x.Op == token.EQL || x.Op == token.NEQ) && ifConds[x] {
+							break
+						}
+						if x.Op == token.ADD {
+							if bl, ok := x.X.(*ast.BasicLit); ok && bl.Kind == token.STRING {
+								break
+							}
+							if bl, ok := x.Y.(*ast.BasicLit); ok && bl.Kind == token.STRING {
+								break
+							}
+						}
+						from := x.Op
+						add(x.OpPos, "op:"+from.String()+"->"+to.String(), before, func() { x.Op = to })
+					}
+				case *ast.CallExpr:
+					for i := 0; i+1 < len(x.Args); i++ {
+						i := i
+						_, ok1 := x.Args[i].(*ast.Ident)
+						_, ok2 := x.Args[i+1].(*ast.Ident)
+						if s1, ok := x.Args[i].(*ast.SelectorExpr); ok {
+							_, ok1 = s1.X.(*ast.Ident)
+						}
+						if s2, ok := x.Args[i+1].(*ast.SelectorExpr); ok {
+							_, ok2 = s2.X.(*ast.Ident)
+						}
+						if ok1 && ok2 && render(fset, x.Args[i]) != render(fset, x.Args[i+1]) {
+							add(x.Args[i].Pos(), "swap-args", render(fset, x)+": "+render(fset, x.Args[i])+" <-> "+render(fset, x.Args[i+1]), func() { x.Args[i], x.Args[i+1] = x.Args[i+1], x.Args[i] })
+							break
+						}
+					}
+				}
+				return true
+			})
+		}
 		ast.Inspect(f, func(nd ast.Node) bool {
+			if set2 {
+				return false
+			}
 			switch x := nd.(type) {
 			case *ast.BlockStmt:
 				visitList(&x.List)
